@@ -281,10 +281,10 @@ def tu_macros(shape):
         m.update({"ctg": "lambda t: gaf_line.path[t]", "qs": "lambda t: gaf_line.path_start", "qe": "lambda t: gaf_line.path_end",
                   "ori": "lambda t: ite(gaf_line.strand == '+', '>', '<')", "body": "lambda t: t == 0"})
     else:
-        m.update({"ctg": "lambda t: split_colon(rstrip(gaf_line.path[t]))[0]",
-                  "qs": "lambda t: int(split_dash(rstrip(split_colon(rstrip(gaf_line.path[t]))[1]))[0])",
-                  "qe": "lambda t: int(split_dash(rstrip(split_colon(rstrip(gaf_line.path[t]))[1]))[1])",
-                  "ori": "lambda t: gaf_line.path[t - 1]", "body": "lambda t: t % 2 == 1"})
+        # the decoded parts of token t are named by ghost maps (definitional requires below): quantified hypotheses then mention
+        # CT[t] / QS[t] / ... instead of the nested split/int terms, and t % 2 only occurs in the defining clause of BODY
+        m.update({"ctg": "lambda t: CT[t]", "qs": "lambda t: QS[t]", "qe": "lambda t: QE[t]", "ori": "lambda t: ORI[t]", "body": "lambda t: BODY[t]",
+                  "so": "lambda t, i: SO[(t, i)]", "en": "lambda t, i: EN[(t, i)]"})
     return m
 
 
@@ -299,7 +299,14 @@ def tu_requires(shape):
         r += ["len(gaf_line.path) >= 2 and len(gaf_line.path) % 2 == 0", "gaf_line.strand == '+'",
               "forall(lambda t: implies(0 <= t < len(gaf_line.path) and t % 2 == 0, isori(t)))",
               "forall(lambda t: implies(0 <= t < len(gaf_line.path) and t % 2 == 1, not isori(t) and tok(t) != '' and str_contains(tok(t), ':') and str_contains(tok(t), '-') and "
-              "len(split_colon(rstrip(tok(t)))) == 2 and len(split_dash(rstrip(split_colon(rstrip(tok(t)))[1]))) == 2))"]
+              "len(split_colon(rstrip(tok(t)))) == 2 and len(split_dash(rstrip(split_colon(rstrip(tok(t)))[1]))) == 2))",
+              # definitions of the ghost names
+              "forall(lambda t: implies(0 <= t < len(gaf_line.path), BODY[t] == (t % 2 == 1)))",
+              "forall(lambda t: implies(0 <= t < len(gaf_line.path) and t % 2 == 1, CT[t] == split_colon(rstrip(gaf_line.path[t]))[0] and "
+              "QS[t] == int(split_dash(rstrip(split_colon(rstrip(gaf_line.path[t]))[1]))[0]) and "
+              "QE[t] == int(split_dash(rstrip(split_colon(rstrip(gaf_line.path[t]))[1]))[1]) and ORI[t] == gaf_line.path[t - 1]))",
+              "forall(lambda t, i: implies(0 <= t < len(gaf_line.path) and t % 2 == 1 and 0 <= i < len(reference[CT[t]]), "
+              "SO[(t, i)] == int(reference[CT[t]][i].tags['SO'][1]) and EN[(t, i)] == int(reference[CT[t]][i].tags['SO'][1]) + int(reference[CT[t]][i].tags['LN'][1])))"]
     r += [
         "0 <= gaf_line.path_start < gaf_line.path_end <= gaf_line.path_length",
         "forall(lambda t: implies(0 <= t < len(gaf_line.path) and body(t), ctg(t) in reference and 0 <= qs(t) < qe(t)))",
@@ -357,7 +364,8 @@ def register_to_unstable(reg):
         reg.add(Contract(
             file=CONV, func="to_unstable", variant="#" + shape,
             params=dict(gaf_line=Alignment, reference=DictT(STR, ListT(GNode))), returns=LINE, modifies=["gaf_line"],
-            ghost=dict(lo=IMAP, hi=IMAP, OUT=IMAP, PS=MapT(I2c, INT), TOT=IMAP, L12=LINE, r=INT),
+            ghost=dict(dict(lo=IMAP, hi=IMAP, OUT=IMAP, PS=MapT(I2c, INT), TOT=IMAP, L12=LINE, r=INT, B=INT, UC0=LINE),
+                       **({} if bare else dict(CT=MapT(INT, STR), QS=IMAP, QE=IMAP, ORI=MapT(INT, STR), BODY=MapT(INT, BOOL), SO=MapT(I2c, INT), EN=MapT(I2c, INT)))),
             types=dict(STR=STR, INT=INT),
             ufuns=dict(SEG_UFUNS, split_colon=([STR], LINE), split_dash=([STR], LINE), rstrip=([STR], STR), str_contains=([STR, STR], BOOL)),
             spec_funcs=tu_macros(shape),
@@ -375,7 +383,11 @@ def register_to_unstable(reg):
                     "first-offset": ("implies(it1 >= 1, new_start == qs(0) - so(0, lo[0])) and implies(it1 == 0, new_start == -1)" if bare else "True"),
                     "split-flag": "implies(it1 >= 1 and body(it1 - 1), defined(split_contig) and split_contig == %s)" % ("False" if bare else "True"),
                 }),
-                2: Loop(index="it2", fingerprint="for i in reference[query_contig_name][start:end + 1]", invariant={
+                2: Loop(index="it2", fingerprint="for i in reference[query_contig_name][start:end + 1]",
+                        pres_from={"taken": ["filter-is-covering-membership", "loop2:taken", "loop2:window", "covering-ends-in-range"],
+                                   "taken-ids": ["slice-element", "filter-is-covering-membership", "loop2:taken", "loop2:taken-ids", "loop2:window", "covering-ends-in-range"],
+                                   "total": ["ps-step", "filter-is-covering-membership", "loop2:taken", "loop2:total", "loop2:window", "covering-ends-in-range"]},
+                        invariant={
                     "window": "0 <= start <= lo[it1 - 1] and hi[it1 - 1] <= end",
                     "taken": "len(nodes_tmp) == ite(start + it2 <= lo[it1 - 1], 0, ite(start + it2 > hi[it1 - 1], nout(it1 - 1), start + it2 - lo[it1 - 1]))",
                     "taken-ids": "forall(lambda k: implies(0 <= k < len(nodes_tmp), nodes_tmp[k] == R(it1 - 1)[lo[it1 - 1] + k].id))",
@@ -383,37 +395,56 @@ def register_to_unstable(reg):
                     "first-offset": ("implies(len(nodes_tmp) >= 1, new_start == qs(0) - so(0, lo[0])) and implies(len(nodes_tmp) == 0, new_start == -1)" if bare else "True"),
                 }),
                 3: Loop(index="it3", fingerprint="for i in reversed(nodes_tmp)", invariant={
-                    "emitted-count": "len(unstable_coord) == 2 * (OUT[it1 - 1] + it3)",
-                    "emitted-earlier": EMITTED.format(n="it1 - 1"),
-                    "emitted-now": "forall(lambda k: implies(0 <= k < it3, unstable_coord[2 * (OUT[it1 - 1] + k)] == '<' and "
-                                   "unstable_coord[2 * (OUT[it1 - 1] + k) + 1] == R(it1 - 1)[hi[it1 - 1] - k].id))",
+                    "emitted-count": "len(unstable_coord) == B + 2 * it3",
+                    "prefix-kept": "forall(lambda j: implies(0 <= j < B, unstable_coord[j] == UC0[j]))",
+                    "emitted-now-orientation": "forall(lambda k: implies(0 <= k < it3, unstable_coord[B + 2 * k] == '<'))",
+                    "emitted-now-id": "forall(lambda k: implies(0 <= k < it3, unstable_coord[B + 2 * k + 1] == nodes_tmp[len(nodes_tmp) - 1 - k]))",
                 }),
                 4: Loop(index="it4", fingerprint="for i in nodes_tmp", invariant={
-                    "emitted-count": "len(unstable_coord) == 2 * (OUT[it1 - 1] + it4)",
-                    "emitted-earlier": EMITTED.format(n="it1 - 1"),
-                    "emitted-now": "forall(lambda k: implies(0 <= k < it4, unstable_coord[2 * (OUT[it1 - 1] + k)] == val(orient) and "
-                                   "unstable_coord[2 * (OUT[it1 - 1] + k) + 1] == R(it1 - 1)[lo[it1 - 1] + k].id))",
+                    "emitted-count": "len(unstable_coord) == B + 2 * it4",
+                    "prefix-kept": "forall(lambda j: implies(0 <= j < B, unstable_coord[j] == UC0[j]))",
+                    "emitted-now-orientation": "forall(lambda k: implies(0 <= k < it4, unstable_coord[B + 2 * k] == val(orient)))",
+                    "emitted-now-id": "forall(lambda k: implies(0 <= k < it4, unstable_coord[B + 2 * k + 1] == nodes_tmp[k]))",
                 }),
                 5: Loop(index="it5", fingerprint="for k in gaf_line.tags.keys()", ghost_before="L12 = new_line", invariant={
                     "len": "len(new_line) == 12 + it5", "prefix": "forall(lambda f: implies(0 <= f < 12, new_line[f] == L12[f]))",
                     "tags": "forall(lambda t: implies(0 <= t < it5, new_line[12 + t] == cat(keys(gaf_line.tags)[t], gaf_line.tags[keys(gaf_line.tags)[t]])))",
                 }),
             },
+            ghost_at={"before:if orient == ": "B = len(unstable_coord)\nUC0 = unstable_coord"},
             assert_at={
                 "before:start, end = utils.search_intervals(": {
                     "token": "nd == tok(it1 - 1) and body(it1 - 1)",
                     "contig-decoded": "query_contig_name == ctg(it1 - 1)",
                     "interval-decoded": "int(query_start) == qs(it1 - 1) and int(query_end) == qe(it1 - 1)",
                     "split-flag": "split_contig == %s" % ("False" if bare else "True"),
-                    "orient-is-the-token-orientation": "(not is_none(orient)) and val(orient) == ori(it1 - 1)"},
-                "before:if orient == '<':": {
+                    "orient-is-the-token-orientation": "(not is_none(orient)) and val(orient) == ori(it1 - 1)",
+                    "covering-ends-in-range": "0 <= lo[it1 - 1] <= hi[it1 - 1] < len(R(it1 - 1))",
+                    "covering-ends-overlap": "so(it1 - 1, lo[it1 - 1]) < qe(it1 - 1) and qs(it1 - 1) < en(it1 - 1, lo[it1 - 1]) and "
+                                             "so(it1 - 1, hi[it1 - 1]) < qe(it1 - 1) and qs(it1 - 1) < en(it1 - 1, hi[it1 - 1])",
+                    "covering-ends-decoded": "so(it1 - 1, lo[it1 - 1]) == int(R(it1 - 1)[lo[it1 - 1]].tags['SO'][1]) and "
+                                             "en(it1 - 1, lo[it1 - 1]) == int(R(it1 - 1)[lo[it1 - 1]].tags['SO'][1]) + int(R(it1 - 1)[lo[it1 - 1]].tags['LN'][1]) and "
+                                             "so(it1 - 1, hi[it1 - 1]) == int(R(it1 - 1)[hi[it1 - 1]].tags['SO'][1]) and "
+                                             "en(it1 - 1, hi[it1 - 1]) == int(R(it1 - 1)[hi[it1 - 1]].tags['SO'][1]) + int(R(it1 - 1)[hi[it1 - 1]].tags['LN'][1])"},
+                "before:if orient == ": {
                     "all-overlapping-segments-taken": "len(nodes_tmp) == nout(it1 - 1)"},
                 "before:s = int(i.tags['SO'][1])": {"slice-element": "start + it2 - 1 < len(R(it1 - 1)) and same(i, R(it1 - 1)[start + it2 - 1])"},
+                "before:cases = -1": {"segment-decoded": "s == so(it1 - 1, start + it2 - 1) and e == en(it1 - 1, start + it2 - 1)"},
+                "before:if cases != -1:": {
+                    "filter-is-covering-membership": "(cases != -1) == (lo[it1 - 1] <= start + it2 - 1 <= hi[it1 - 1])",
+                    "ps-step": "implies(lo[it1 - 1] <= start + it2 - 1 <= hi[it1 - 1], PS[(it1 - 1, start + it2)] == PS[(it1 - 1, start + it2 - 1)] + (e - s))"},
                 "before:return new_line": {"path-field-is-the-emitted-walk": "same(untok(new_line[5]), unstable_coord)"},
-                "after:if orient == '<':": {
+                "after:if orient == ": {
                     "emitted-count-after-token": "len(unstable_coord) == 2 * (OUT[it1 - 1] + nout(it1 - 1))",
-                    "emitted-this-token": "forall(lambda k: implies(0 <= k < nout(it1 - 1), unstable_coord[2 * (OUT[it1 - 1] + k)] == ori(it1 - 1) and "
-                                          "unstable_coord[2 * (OUT[it1 - 1] + k) + 1] == R(it1 - 1)[ite(ori(it1 - 1) == '<', hi[it1 - 1] - k, lo[it1 - 1] + k)].id))",
+                    "emitted-this-token-by-position": {
+                        "expr": "forall(lambda k: implies(0 <= k < nout(it1 - 1), unstable_coord[B + 2 * k] == ori(it1 - 1) and "
+                                "unstable_coord[B + 2 * k + 1] == R(it1 - 1)[ite(ori(it1 - 1) == '<', hi[it1 - 1] - k, lo[it1 - 1] + k)].id))",
+                        "from": ["loop3:emitted-count", "loop3:emitted-now-orientation", "loop3:emitted-now-id", "loop4:emitted-count", "loop4:emitted-now-orientation",
+                                 "loop4:emitted-now-id", "loop2:taken-ids", "all-overlapping-segments-taken", "orient-is-the-token-orientation"]},
+                    "emitted-this-token": {
+                        "expr": "forall(lambda k: implies(0 <= k < nout(it1 - 1), unstable_coord[2 * (OUT[it1 - 1] + k)] == ori(it1 - 1) and "
+                                "unstable_coord[2 * (OUT[it1 - 1] + k) + 1] == R(it1 - 1)[ite(ori(it1 - 1) == '<', hi[it1 - 1] - k, lo[it1 - 1] + k)].id))",
+                        "from": ["emitted-this-token-by-position", "loop1:emitted-count"]},
                     "emitted-earlier-kept": EMITTED.format(n="it1 - 1")}},
             ensures=ens,
             notes="bare-*-identity: with the covering segments tiling [so(lo), so(lo)+PS) the base at read offset r sits at contig position so(lo)+start'+r (forward walk) "
